@@ -9,45 +9,63 @@
 (* infers (a report of i is explainable iff i is in flight, since the scan *)
 (* reports the first DONE future).  One action per event kind; the guards  *)
 (* are those of HyperOpt!Submit / HyperOpt!Poll.                           *)
+(* Stopping rule (HyperOpt!Check): rule "none" | "equil" (amount) | "time" *)
+(* (amount, with <<"clock", t>> events: the value the loop's stop check    *)
+(* read from the clock after the preceding report, relative to the start)  *)
+(* | "any" (a rule the trace does not determine: any report may be last).  *)
+(* The run must end at the first report after which the rule fires, and    *)
+(* not before.                                                             *)
 (* Verdict <<"V", c, clause, position>>.                                   *)
 (***************************************************************************)
 EXTENDS Data, Naturals, FiniteSets
-VARIABLES c, pc, submitted, inflight, reported, best
+VARIABLES c, pc, submitted, inflight, reported, best, since, fired
 
 Case == Cases[c]
 Ev   == Case.events[pc]
 Live == c <= Len(Cases)
 SeqSet(s) == {s[k] : k \in DOMAIN s}
 
-Start(k) == c' = k /\ pc' = 1 /\ submitted' = 0 /\ inflight' = <<>> /\ reported' = <<>> /\ best' = 0
+Start(k) == c' = k /\ pc' = 1 /\ submitted' = 0 /\ inflight' = <<>> /\ reported' = <<>> /\ best' = 0 /\ since' = 0 /\ fired' = FALSE
 Verdict(cl) == PrintT(<<"V", c, cl, pc>>) /\ Start(c + 1)
-Init == c = 1 /\ pc = 1 /\ submitted = 0 /\ inflight = <<>> /\ reported = <<>> /\ best = 0
+Init == c = 1 /\ pc = 1 /\ submitted = 0 /\ inflight = <<>> /\ reported = <<>> /\ best = 0 /\ since = 0 /\ fired = FALSE
 
 TrSubmit ==
     /\ Live /\ pc <= Len(Case.events) /\ Ev[1] = "submit"
-    /\ IF submitted >= Case.M THEN Verdict("more-trials-than-requested")
+    /\ IF fired THEN Verdict("continued-after-stop-rule-fired")
+       ELSE IF submitted >= Case.M THEN Verdict("more-trials-than-requested")
        ELSE IF Len(inflight) >= Case.P THEN Verdict("submit-with-full-window")
        ELSE IF Ev[2] # submitted + 1 THEN Verdict("submission-ids-not-consecutive")
        ELSE /\ submitted' = submitted + 1 /\ inflight' = Append(inflight, Ev[2])
-            /\ pc' = pc + 1 /\ UNCHANGED <<c, reported, best>>
+            /\ pc' = pc + 1 /\ UNCHANGED <<c, reported, best, since, fired>>
 
 Better(i) == Case.score[i] # Case.Inf /\ (best = 0 \/ Case.score[i] < Case.score[best])
 TrReport ==
     /\ Live /\ pc <= Len(Case.events) /\ Ev[1] = "report"
-    /\ IF Ev[2] \notin SeqSet(inflight) THEN Verdict("report-of-trial-not-in-flight")
+    /\ IF fired THEN Verdict("continued-after-stop-rule-fired")
+       ELSE IF Ev[2] \notin SeqSet(inflight) THEN Verdict("report-of-trial-not-in-flight")
        ELSE IF ~(Len(inflight) = Case.P \/ submitted = Case.M) THEN Verdict("poll-before-window-full")
        ELSE /\ inflight' = SelectSeq(inflight, LAMBDA x : x # Ev[2])
             /\ reported' = Append(reported, Ev[2])
             /\ best' = IF Better(Ev[2]) THEN Ev[2] ELSE best
+            /\ since' = IF Better(Ev[2]) THEN 0 ELSE since + 1
+            /\ fired' = (Case.rule = "equil" /\ since' > Case.amount)
             /\ pc' = pc + 1 /\ UNCHANGED <<c, submitted>>
+
+(* the stop check's reading of the clock after a report *)
+TrClock ==
+    /\ Live /\ pc <= Len(Case.events) /\ Ev[1] = "clock"
+    /\ IF fired THEN Verdict("continued-after-stop-rule-fired")
+       ELSE /\ fired' = (Case.rule = "time" /\ Ev[2] > Case.amount)
+            /\ pc' = pc + 1 /\ UNCHANGED <<c, submitted, inflight, reported, best, since>>
 
 Finish ==
     /\ Live /\ pc > Len(Case.events)
-    /\ IF inflight # <<>> THEN Verdict("trials-never-reported")
+    /\ IF inflight # <<>> /\ ~fired /\ Case.rule # "any" THEN Verdict("trials-never-reported")
+       ELSE IF submitted < Case.M /\ ~fired /\ Case.rule # "any" THEN Verdict("stopped-although-no-rule-fired")
        ELSE IF Len(reported) # Case.nscores THEN Verdict("scores-list-length-differs-from-reports")
        ELSE IF Len(reported) > Case.M THEN Verdict("more-trials-than-requested")
        ELSE IF Case.best # best THEN Verdict("best-is-not-first-minimum")
        ELSE Verdict("ok")
 
-Next == TrSubmit \/ TrReport \/ Finish
+Next == TrSubmit \/ TrReport \/ TrClock \/ Finish
 =============================================================================
